@@ -168,8 +168,35 @@ pub fn strings(tier: Tier) -> Vec<String> {
     out.push("\u{FEFF}ab".to_string());
     out.push("a\u{FEFF}b".to_string());
     out.push("\u{FEFF}".to_string());
+    out.extend(string_zoo());
     out.sort();
     out.dedup();
+    out
+}
+
+/// strings chosen for their CONTENT: code points at every UTF-8 encoding boundary and the replacement / non-characters,
+/// control characters and blanks at either end, quotes and backslashes next to multi-byte characters, a multi-byte
+/// character straddling every byte offset 1..=20, and texts that look like something else (set names, ids, opcodes,
+/// numbers, comments, linker remarks)
+pub fn string_zoo() -> Vec<String> {
+    let mut out: Vec<String> = vec![];
+    for c in ['\u{7f}', '\u{80}', '\u{7ff}', '\u{800}', '\u{d7ff}', '\u{e000}', '\u{fffd}', '\u{fffe}', '\u{ffff}', '\u{10000}', '\u{10ffff}', '\u{85}', '\u{a0}', '\u{2028}', '\u{1}', '\u{1b}'] {
+        out.push(c.to_string());
+        out.push(format!("a{}b", c));
+        out.push(format!("x{}", c));
+    }
+    for t in ["x\n", "x\r\n", "x\t", "\tx", "x ", " x", "\n", " ", "x\n\n", "line1\nline2\n"] {
+        out.push(t.to_string());
+    }
+    for t in ["\u{e9}\"", "\u{65e5}\"\u{672c}\"", "\u{e9}\\", "\\\u{e9}", "\"\"", "\\\\", "\\n", "a\\", "\"", "\\\"", "\u{1f600}\"x"] {
+        out.push(t.to_string());
+    }
+    for k in 0..=20usize {
+        out.push(format!("{}\u{65e5}b", "a".repeat(k)));
+    }
+    for t in ["Linked by x", "OpenCL.std", "GLSL.std.450", "OpenCL.std.100", "GLSL.std.450x", "ext1.\u{65e5}\u{672c}\u{8a9e}.std", "main", "%1", "OpNop", "; comment", "0x10", "-1", "1.5", "true", "SPV_KHR_x", "NonSemantic.Shader.DebugInfo.100"] {
+        out.push(t.to_string());
+    }
     out
 }
 
@@ -612,4 +639,28 @@ pub fn dense_module(k: u32) -> Vec<u32> {
     words.extend(enc(&Inst::new("Return", None, None, vec![])));
     words.extend(enc(&Inst::new("FunctionEnd", None, None, vec![])));
     words
+}
+
+
+/// The one construct of the binary form that nests: an OpSpecConstantOp whose operand words are again the opcode number
+/// of OpSpecConstantOp (52), N times, for N up to what one instruction can hold; and the same with other nestable opcode
+/// numbers at the end. (On this tree a nested OpSpecConstantOp is refused at the first level.)
+pub fn deep_nesting_words() -> Vec<(String, Vec<u32>)> {
+    let mut out = vec![];
+    for n in [1usize, 2, 3, 10, 100, 1000, 5000, 6000, 20000, 65531] {
+        for tail in [vec![], vec![128u32, 3, 4], vec![52, 52]] {
+            let mut w = crate::model::header(0x0001_0300, 0, 10);
+            let total = 3 + n + tail.len();
+            if total > 65535 {
+                continue;
+            }
+            w.push(((total as u32) << 16) | 52);
+            w.push(1);
+            w.push(2);
+            w.extend(std::iter::repeat(52u32).take(n));
+            w.extend(tail.iter().copied());
+            out.push((format!("nested-spec-constant-op:{}:+{}", n, tail.len()), w));
+        }
+    }
+    out
 }
